@@ -298,6 +298,18 @@ func (s Stream[T]) WithAdditionalLifecycle(lch Lifecycle) Stream[T] {
 
 func doOpenStream[T any](ctx context.Context, s Stream[T]) (context.CancelFunc, error) {
 	ctxWithCancel, cancelFunc := context.WithCancel(ctx)
+	// If opening a lifecycle element panics, the previously opened elements must be closed as well
+	// (same as when it returns an error), before the panic continues up the stack
+	openedCount := 0
+	defer func() {
+		if rvr := recover(); rvr != nil {
+			for i := 0; i < openedCount; i++ {
+				s.allLifecycleElement[i].Close()
+			}
+			cancelFunc()
+			panic(rvr)
+		}
+	}()
 	// Running all lifecycle elements
 	for lcIdx, l := range s.allLifecycleElement {
 		err := l.Open(ctxWithCancel)
@@ -314,6 +326,7 @@ func doOpenStream[T any](ctx context.Context, s Stream[T]) (context.CancelFunc, 
 
 			return nil, fmt.Errorf("failed to open stream lifecycle element %d: %w", lcIdx, err)
 		}
+		openedCount = lcIdx + 1
 	}
 	return cancelFunc, nil
 }
